@@ -529,3 +529,116 @@ Qed.
 (* read with [last_word_spec]: [last_word ... hist n = Some (Some f)] iff
    hist = pre ++ r :: post, row r is a create_flow row with (new) name n and definition f,
    and no row of post is a create_flow row named n or an ignore_row n *)
+
+(* ------------------------------------------------------------ the data-sheet registry *)
+
+(* the name a data_sheet row registers its result under *)
+Definition row_data_key (r : irow) : option str :=
+  match classify (r_type r), r_sheets r with
+  | TData, first :: _ => Some (str_or (r_new r) first)
+  | _, _ => None
+  end.
+
+Lemma get_data_keeps_registry wbs n st ds st' :
+  get_data wbs n st = Ok (ds, st') -> st_data st' = st_data st.
+Proof.
+  unfold get_data. destruct (sget (st_data st) n) as [d|].
+  - intros H. injection H as _ <-. reflexivity.
+  - destruct (resolve wbs n) as [[id b]|]; [|discriminate].
+    destruct b; try discriminate. intros H. injection H as _ <-. reflexivity.
+Qed.
+
+Lemma concat_data_keeps_registry wbs names : forall model rows st model' rows' st',
+  concat_data wbs names model rows st = Ok (model', rows', st') -> st_data st' = st_data st.
+Proof.
+  induction names as [|n rest IH]; intros model rows st model' rows' st' H; cbn [concat_data] in H.
+  - injection H as _ _ <-. reflexivity.
+  - destruct (get_data wbs n st) as [[ds st1]|e] eqn:Eg; [|discriminate].
+    match type of H with (if ?c then _ else _) = _ => destruct c end; [discriminate|].
+    rewrite (IH _ _ _ _ _ _ H). apply (get_data_keeps_registry _ _ _ _ _ Eg).
+Qed.
+
+(* a data_sheet row (re)defines exactly one name: the concatenation of its sheets as the
+   registry stands just before it; a sheet that is merely read is NOT registered *)
+Theorem data_row_defines wbs r st st' n :
+  step_other wbs r st = Ok st' -> row_data_key r = Some n ->
+  exists model rows st1,
+    concat_data wbs (r_sheets r) None [] st = Ok (model, rows, st1) /\
+    st_data st' = sset (st_data st) n (mk_dsheet (match model with Some m => m | None => 0 end) rows).
+Proof.
+  unfold step_other, row_data_key. destruct (classify (r_type r)); try discriminate.
+  unfold process_data. destruct (r_sheets r) as [|first l] eqn:Es; [discriminate|].
+  intros H Hk. injection Hk as <-.
+  destruct (concat_data wbs (first :: l) None [] st) as [[[model rows] st1]|e] eqn:Ec; [|discriminate].
+  injection H as <-. exists model, rows, st1. split; [reflexivity|].
+  cbn [st_data set_data]. rewrite (concat_data_keeps_registry _ _ _ _ _ _ _ _ Ec). reflexivity.
+Qed.
+
+(* every other row — ignore_row included — leaves the entry alone *)
+Theorem data_row_frame wbs r st st' n :
+  step_other wbs r st = Ok st' -> row_data_key r <> Some n ->
+  sget (st_data st') n = sget (st_data st) n.
+Proof.
+  intros H Hk. destruct (row_data_key r) as [k|] eqn:Ek.
+  - destruct (data_row_defines _ _ _ _ _ H Ek) as [model [rows [st1 [_ Hd]]]]. rewrite Hd.
+    unfold sget, sset. apply (oget_oset_other str_eqb str_eqb_eq). congruence.
+  - revert H. unfold step_other, row_data_key in *.
+    destruct (classify (r_type r)) eqn:Ec.
+    + destruct (r_sheets r) as [|s [|s2 l]]; try discriminate. cbn [step_single].
+      destruct (resolve wbs s) as [[id b]|]; [|discriminate]. destruct b; discriminate.
+    + unfold process_data. destruct (r_sheets r); discriminate.
+    + destruct (r_sheets r) as [|s [|s2 l]]; try discriminate. cbn [step_single]. unfold add_template.
+      destruct (resolve wbs s) as [[id b]|]; [|discriminate]. intros H. injection H as <-. reflexivity.
+    + destruct (r_sheets r) as [|s [|s2 l]]; try discriminate. cbn [step_single].
+      intros H. injection H as <-. reflexivity.
+    + destruct (r_sheets r) as [|s [|s2 l]]; try discriminate. cbn [step_single].
+      destruct (resolve wbs s) as [[id b]|]; [|discriminate]. destruct b; try discriminate.
+      intros H. injection H as <-. reflexivity.
+    + destruct (r_sheets r) as [|s [|s2 l]]; try discriminate. cbn [step_single].
+      destruct (resolve wbs s) as [[id b]|]; [|discriminate]. destruct b; try discriminate.
+      intros H. injection H as <-. reflexivity.
+    + destruct (r_sheets r) as [|s [|s2 l]]; try discriminate. cbn [step_single].
+      intros H. injection H as <-. reflexivity.
+    + destruct (r_sheets r) as [|s [|s2 l]]; try discriminate. cbn [step_single].
+      intros H. injection H as <-. reflexivity.
+Qed.
+
+Lemma run_rows_data_frame wbs rows n : forall st st',
+  run_rows wbs rows st = Ok st' ->
+  (forall r, In r rows -> row_data_key r <> Some n) ->
+  sget (st_data st') n = sget (st_data st) n.
+Proof.
+  unfold run_rows. induction rows as [|r rest IH]; intros st st' H Hno; cbn [foldM] in H.
+  - injection H as <-. reflexivity.
+  - destruct (step_other wbs r st) as [st1|e] eqn:E1; [|discriminate].
+    rewrite (IH _ _ H) by (intros r' Hin; apply Hno; right; exact Hin).
+    apply (data_row_frame _ _ _ _ _ E1). apply Hno. left. reflexivity.
+Qed.
+
+(* data sheet [n] at the end of a run is what the LAST data_sheet row naming it made of the
+   registry as it stood at that row; with no such row it is absent *)
+Theorem data_last_definition wbs pre r post st' n :
+  run_rows wbs (pre ++ r :: post) st0 = Ok st' ->
+  row_data_key r = Some n ->
+  (forall r', In r' post -> row_data_key r' <> Some n) ->
+  exists st1 model rows st2,
+    run_rows wbs pre st0 = Ok st1 /\
+    concat_data wbs (r_sheets r) None [] st1 = Ok (model, rows, st2) /\
+    sget (st_data st') n = Some (mk_dsheet (match model with Some m => m | None => 0 end) rows).
+Proof.
+  intros H Hk Hno. rewrite run_rows_app in H.
+  destruct (run_rows wbs pre st0) as [st1|e] eqn:Epre; [|discriminate].
+  change (r :: post) with ([r] ++ post) in H. rewrite run_rows_app in H.
+  unfold run_rows at 1 in H. cbn [foldM] in H.
+  destruct (step_other wbs r st1) as [st2|e] eqn:Er; [|discriminate].
+  destruct (data_row_defines _ _ _ _ _ Er Hk) as [model [rows [st1' [Hc Hd]]]].
+  exists st1, model, rows, st1'. split; [reflexivity|]. split; [exact Hc|].
+  rewrite (run_rows_data_frame _ _ _ _ _ H Hno), Hd. unfold sget, sset.
+  apply (oget_oset_same str_eqb str_eqb_eq).
+Qed.
+
+Theorem data_never_defined wbs rows st' n :
+  run_rows wbs rows st0 = Ok st' ->
+  (forall r, In r rows -> row_data_key r <> Some n) ->
+  sget (st_data st') n = None.
+Proof. intros H Hno. rewrite (run_rows_data_frame _ _ _ _ _ H Hno). reflexivity. Qed.
